@@ -901,6 +901,14 @@ def h_nothing(F, st, o, a):
     pass
 
 
+def h_tdiv_r(F, st, o, a):
+    """r = n - d * trunc (n / d): zero, or the sign of the dividend; both happen for every sign of n (d chosen suitably)"""
+    n = _g(F, st, o[1])
+    d = _g(F, st, o[2])
+    att = (n.att | Z) if n.att and independent(n, d) else 0
+    F.set_obj(st, o[0], Val(n.signs | Z, n.tags if att else None, None, frozenset(), att))
+
+
 def is_null(a):
     a = _strip(a)
     return isinstance(a, dict) and a.get("k") == "int" and a["v"] == 0
@@ -918,7 +926,7 @@ def h_nonneg(F, st, o, a):
     F.set_obj(st, o[0], NONNEG)
 
 
-MPZ = {"__gmpz_gcdext": (5, h_gcdext), "__gmpz_set": (2, h_copy), "__gmpz_init_set": (2, h_copy), "__gmpz_neg": (2, h_neg), "__gmpz_abs": (2, h_abs),
+MPZ = {"__gmpz_tdiv_r": (3, h_tdiv_r), "__gmpz_gcdext": (5, h_gcdext), "__gmpz_set": (2, h_copy), "__gmpz_init_set": (2, h_copy), "__gmpz_neg": (2, h_neg), "__gmpz_abs": (2, h_abs),
        "__gmpz_mul": (3, h_mul), "__gmpz_mul_ui": (3, h_mul_scalar), "__gmpz_mul_si": (3, h_mul_scalar), "__gmpz_mul_2exp": (2, h_copy),
        "__gmpz_gcd": (3, h_gcd), "__gmpz_divexact_gcd": (3, h_divexact_gcd), "__gmpz_divexact": (3, h_divexact),
        "__gmpz_add": (3, h_add), "__gmpz_sub": (3, h_sub), "__gmpz_set_ui": (2, h_set_scalar), "__gmpz_set_si": (2, h_set_scalar),
@@ -1301,3 +1309,4 @@ def run_den_one(prop="C12", tier="quick"):
     res["notes"].append("fixtures: 2 positive fired, 3 negative silent")
     res["exhaustive"] = True
     return res
+
